@@ -17,7 +17,7 @@ static bool decode(const ExplicitTreeAut& aut, SA& out)
     bool matched = false;
     for (unsigned i = 0; i < out.nrules; ++i) {
       U::Rule r = U::Univ<NS>::rule(i);
-      bool m = t.GetSymbol() == r.sym && t.GetParent() == r.parent && t.GetChildren().size() == r.rank;
+      bool m = t.GetSymbol() == U::symnum(r.sym) && t.GetParent() == r.parent && t.GetChildren().size() == r.rank;
       for (unsigned k = 0; k < r.rank; ++k) m = m && t.GetChildren()[k] == r.child[k];
       out.pres[i] = out.pres[i] | m; matched = matched | m;
     }
